@@ -145,17 +145,40 @@ def check_eval(expr, ct):
     return parse()
 
 
-def eval_readback(pr, code, ct):
+def eval_readback_case(pr, code, ct):
     for h in pr["handlers"]:
         if cond_eval(h["cond"], code):
             b = h["body"]
             if b["kind"] == "single":
-                return b["case"]["variant"]
+                return b["case"]
             s = ct if ct is not None else b["default_ct"]
             for c in b["cases"]:
                 if check_eval(c["check"], s):
-                    return c["case"]["variant"]
-    return pr["fallback"]["variant"]
+                    return c["case"]
+    return pr["fallback"]
+
+
+def eval_readback(pr, code, ct):
+    return eval_readback_case(pr, code, ct)["variant"]
+
+
+# independent reading of "decoded as the schema declared for that status and media type":
+# which decoder family a declared media type calls for (only the media types the generator of cases uses)
+DECODER_OF_CT = {"application/json": "json", "application/problem+json": "json", "application/vnd.api+json": "json",
+                 "application/xml": "xml", "text/plain": "text", "text/html": "text", "text/csv": "text",
+                 "application/octet-stream": "bytes", "image/png": "bytes", "text/event-stream": "stream"}
+
+
+def decoder_ok(payload, ct, schema):
+    want = DECODER_OF_CT.get(ct)
+    if want is None or payload is None or schema is None:
+        return True
+    fam = payload.split(":")[0]
+    if want == "text":
+        return fam in ("text", "text_parse") or (fam == "json" and "$ref" in schema)
+    if want == "bytes":
+        return fam in ("bytes", "json")
+    return fam == want
 
 
 def expected_keys(rs_keys, code):
@@ -223,6 +246,7 @@ def run_cases(res, cases, model_exe):
         vlines = vlib.run_driver(model_exe, ["vars " + rs_line(c) for c in cases])
         model = list(zip(lines, vlines))
     disagreements, oracle_fail = [], []
+    known_hits = set()
     n_eval = 0
     cts = [None, "application/json", "text/plain", "application/xml", "image/png", "text/event-stream",
            "application/problem+json", "application/octet-stream"]
@@ -278,11 +302,21 @@ def run_cases(res, cases, model_exe):
                 if got != exp:
                     bad = (i, code, ct, got, vk.get(got, "?"), chain + [exp])
                     break
+                # payload decoder: when the response carries one of the media types declared for the chosen key
+                gcase = eval_readback_case(pr, code, ct)
+                src = vk.get(got, "?")
+                decl = dict(next((c for k, c in case if k == src), []))
+                if ct in decl and not decoder_ok(gcase["payload"], ct, decl[ct]):
+                    if src == "default" and len(decl) > 1:
+                        known_hits.add("default-multi-media-no-dispatch")
+                        continue
+                    bad = (i, code, ct, got, src, [f"payload decoded with {gcase['payload']} although {ct} is declared for {src}"])
+                    break
             if bad:
                 break
         if bad:
             oracle_fail.append(bad)
-    return disagreements, oracle_fail, n_eval, rbs
+    return disagreements, oracle_fail, n_eval, known_hits
 
 
 def main(tier, seed, replay=None):
@@ -302,7 +336,13 @@ def main(tier, seed, replay=None):
         cases = [[(k, [tuple(x) for x in c]) for k, c in cases[0]]]
     else:
         cases = gen_cases(tier, seed)
-    dis, ofail, n_eval, rbs = run_cases(res, cases, exe)
+    dis, ofail, n_eval, known_hits = run_cases(res, cases, exe)
+    kf = {k["key"]: k["text"] for k in vlib.known_findings("C04")}
+    for k in sorted(known_hits):
+        if k in kf:
+            res.known(k, kf[k])
+        else:
+            ofail.append((0, 0, None, "?", k, [f"unlisted failing class {k}"]))
     res.counts.update({"correspondence_cases": len(cases), "traces_validated_against_impl": len(cases) if exe else 0,
                        "oracle_evaluations": n_eval, "disagreements": len(dis),
                        "rule": "responses objects: every pool key x 16 content shapes, exact/range/default families, random subsets of a 20-key pool; each through the real CLI, emitted parse_response read back with syn and compared with the extracted Coq model (handler chain + enum variants); plus the property oracle on all 500 statuses x 8 content types evaluated on the emitted chain"})
